@@ -60,7 +60,16 @@ TokenOK(t) == IF "c" \in DOMAIN t THEN TRUE
 TokenCode(t) == IF "c" \in DOMAIN t THEN t.c ELSE IF "e" \in DOMAIN t THEN
                   (CASE t.e = "0" -> 0 [] t.e = "\\" -> 92 [] t.e = "t" -> 9 [] t.e = "n" -> 10 [] t.e = "r" -> 13 [] t.e = "\"" -> 34 [] OTHER -> 39)
                 ELSE HexNum(t.u)
+\* description of the first bad token (only used to name a disagreeing case)
+TokenWhy(t) == IF TokenOK(t) THEN "ok"
+               ELSE IF "e" \in DOMAIN t THEN "unknown-escape"
+               ELSE IF Len(t.u) = 0 THEN "empty-unicode-escape"
+               ELSE IF \E i \in 1..Len(t.u) : HexVal(t.u[i]) >= 16 THEN "non-hex-digit"
+               ELSE IF Len(t.u) > 8 THEN "too-many-digits"
+               ELSE IF Len(Strip([i \in 1..Len(t.u) |-> HexVal(t.u[i])])) > 6 \/ HexNum(t.u) > 1114111 THEN "beyond-10FFFF"
+               ELSE "surrogate"
 StringLiteral(toks) == IF \A i \in 1..Len(toks) : TokenOK(toks[i])
-                       THEN [valid |-> TRUE, cps |-> [i \in 1..Len(toks) |-> TokenCode(toks[i])]]
-                       ELSE [valid |-> FALSE, cps |-> << >>]
+                       THEN [valid |-> TRUE, cps |-> [i \in 1..Len(toks) |-> TokenCode(toks[i])], why |-> "ok"]
+                       ELSE [valid |-> FALSE, cps |-> << >>,
+                             why |-> TokenWhy(toks[CHOOSE i \in 1..Len(toks) : ~TokenOK(toks[i]) /\ \A j \in 1..(i - 1) : TokenOK(toks[j])])]
 =============================================================================
